@@ -26,7 +26,7 @@ func propC11(c *Ctx, r *Report) {
 		{"node.Pegnetd.ApplyGradedSPRBlock", "InsertStaking100Coinbase", "SPR"},
 	} {
 		f := c.fn(spec.fn)
-		adds := findCalls(f, "pegnet.(*Pegnet).AddToBalance")
+		adds := c.findCallsFam(f, "pegnet.Pegnet.AddToBalance")
 		var bad []string
 		if len(adds) != 1 {
 			bad = append(bad, fmt.Sprintf("%d AddToBalance call sites (want exactly 1 per winner)", len(adds)))
@@ -64,7 +64,7 @@ func propC11(c *Ctx, r *Report) {
 				bad = append(bad, "amount and address come from different elements")
 			}
 			// history row gets the same element
-			hs := findCalls(f, "pegnet.(*Pegnet)."+spec.hist)
+			hs := c.findCallsFam(f, "pegnet.Pegnet."+spec.hist)
 			if len(hs) != 1 {
 				bad = append(bad, fmt.Sprintf("%d %s call sites", len(hs), spec.hist))
 			} else if ok1 {
@@ -151,7 +151,7 @@ func propC11(c *Ctx, r *Report) {
 	acc.report(c, r, "C11/burn-table", afb)
 	r.check(len(bad) == 0 && nburn == 1, "C11/burn-table", "ApplyFactoidBlock transaction shape table", c.pos(afb.Pos()), fmt.Sprintf("%d cells, burn registered in exactly 1", ncell), strings.Join(bad, "; ")+fmt.Sprintf(" (%d cells register a burn)", nburn))
 	// burn credit provenance
-	adds := findCalls(afb, "pegnet.(*Pegnet).AddToBalance")
+	adds := c.findCallsFam(afb, "pegnet.Pegnet.AddToBalance")
 	bad = nil
 	tick, _ := c.tickers()
 	if len(adds) != 1 {
@@ -199,7 +199,7 @@ func propC11(c *Ctx, r *Report) {
 		if !hasField(args[2], "FCTInputs") || !hasField(args[2], "Address") || !fromRegistered(args[2]) {
 			bad = append(bad, "credited address is not FCTInputs[0].Address of a registered burn")
 		}
-		hs := findCalls(afb, "pegnet.(*Pegnet).InsertFCTBurn")
+		hs := c.findCallsFam(afb, "pegnet.Pegnet.InsertFCTBurn")
 		if len(hs) != 1 {
 			bad = append(bad, "history row for the burn missing")
 		} else if !fromRegistered(hs[0].Common().Args[3]) {
@@ -215,7 +215,7 @@ func propC11(c *Ctx, r *Report) {
 	// previous winners
 	r.rule("C11/previous-winners", 1, "previous winners are read for the block being graded")
 	gr := c.fn("node.Pegnetd.Grade")
-	for _, ci := range findCalls(gr, "pegnet.(*Pegnet).SelectPreviousWinners") {
+	for _, ci := range findCalls(gr, "pegnet.Pegnet.SelectPreviousWinners") {
 		okk := valuePath(ci.Common().Args[2]) == "block.Height"
 		r.check(okk, "C11/previous-winners", "SelectPreviousWinners(block.Height)", c.ipos(ci), "", "previous winners read for "+valuePath(ci.Common().Args[2]))
 		// result reaches NewGrader
@@ -254,7 +254,7 @@ func propC11(c *Ctx, r *Report) {
 // staking validators of the dependency actually read.
 func stakerIdentity(c *Ctx, r *Report, rule string) {
 	gs := c.fn("node.Pegnetd.GradeS")
-	calls := findCalls(gs, "pegnet.(*Pegnet).IsIncludedTopPEGAddress")
+	calls := findCalls(gs, "pegnet.Pegnet.IsIncludedTopPEGAddress")
 	if len(calls) != 1 {
 		r.viol(rule, "GradeS gates records on top-100 membership", c.pos(gs.Pos()), fmt.Sprintf("%d calls to IsIncludedTopPEGAddress: staking records are not restricted to top PEG holders", len(calls)))
 		return
